@@ -469,14 +469,24 @@ func ZDelete(key string, vs ...Value) *Op {
 func ZDeleteRank(key string, start, stop int) *Op {
 	return &Op{Name: "ZDeleteRank", Tok: fmt.Sprintf("ZDeleteRank %s %s %s", SS(key), I(start), I(stop)), Write: true,
 		Run: func(r R, x *Exec, op *Op) Res {
-			n, err := r.ZSet().DeleteWith(key).ByRank(start, stop).Run()
+			// (the selectors of a builder replace each other, the last one given counts: now and
+			// then a score range that covers everything is given first)
+			c := r.ZSet().DeleteWith(key)
+			if (start+stop)%3 == 0 {
+				c = c.ByScore(negInf, posInf)
+			}
+			n, err := c.ByRank(start, stop).Run()
 			return valOrErr(I(n), err)
 		}}
 }
 func ZDeleteScore(key string, lo, hi float64) *Op {
 	return &Op{Name: "ZDeleteScore", Tok: fmt.Sprintf("ZDeleteScore %s %s %s", SS(key), F(lo), F(hi)), Write: true,
 		Run: func(r R, x *Exec, op *Op) Res {
-			n, err := r.ZSet().DeleteWith(key).ByScore(lo, hi).Run()
+			c := r.ZSet().DeleteWith(key)
+			if lo != hi {
+				c = c.ByRank(0, 0) // replaced by the score range given after it
+			}
+			n, err := c.ByScore(lo, hi).Run()
 			return valOrErr(I(n), err)
 		}}
 }
@@ -638,7 +648,11 @@ func ZRangeScore(key string, lo, hi float64, desc bool, offset, count int) *Op {
 	return &Op{Name: "ZRangeScore",
 		Tok: fmt.Sprintf("ZRangeScore %s %s %s %s %s %s", SS(key), F(lo), F(hi), B(desc), I(offset), I(count)),
 		Run: func(r R, x *Exec, op *Op) Res {
-			c := r.ZSet().RangeWith(key).ByScore(lo, hi).Offset(offset).Count(count)
+			c := r.ZSet().RangeWith(key)
+			if offset%2 == 0 {
+				c = c.ByRank(0, 0) // replaced by the score range given after it
+			}
+			c = c.ByScore(lo, hi).Offset(offset).Count(count)
 			if desc {
 				c = c.Desc()
 			}
